@@ -70,6 +70,9 @@ def run(run):
         # a whole query on one very long physical line (two sizes: > 4 KiB in 12 byte-shifted variants, > 64 KiB once)
         for nconj, shifts in ((330, range(12)), (4800, (0,))):
             q = QG.random_query(rng, kinds=kinds, values=proj.values, depth=1, n_preds=0, n_entities=1, where=True)
+            while any("\n" in lx or "\r" in lx for lx in q.lexemes):
+                # one physical line is the point here: no literal that spans lines (the recorded finding, checked below)
+                q = QG.random_query(rng, kinds=kinds, values=proj.values, depth=1, n_preds=0, n_entities=1, where=True)
             if q.cond is None:
                 continue
             a0 = q.from_items[0][1]
